@@ -598,6 +598,21 @@ def _gen(ctx, emit):
                     t = grsenv.b58c_enc(hk, pf + h)
                     emit("c08parse %s %s" % (f, th(t)))
                     emit("c08parse %s %s" % (o, th(t)))
+    # 2c. a right payload with ONE checksum byte off (each of the four positions), under the network's own hash: refused
+    #     (a comparison of fewer than four bytes, or of the wrong slice, accepts some of these)
+    for name in FAMILY + ["btc", "dcr"] + rng.sample(NAMES, ctx.n(3, 20)):
+        aa = NETS[name].address
+        for pf in (aa._address_prefix, aa._pay_to_script_prefix):
+            if pf is None:
+                continue
+            payload = pf + rb(20)
+            chk = grsenv.HASHES[grsenv.hash_kind(name)](payload)[:4]
+            for i in range(4):
+                bad = bytearray(chk)
+                bad[i] ^= 1 << rng.randrange(8)
+                emit("c08parse %s %s" % (name, th(grsenv.b58enc(payload + bytes(bad)))))
+            emit("c08parse %s %s" % (name, th(grsenv.b58enc(payload + chk[:3]))))
+            emit("c08parse %s %s" % (name, th(grsenv.b58enc(payload + chk + chk[:1]))))
     # 3. payload lengths 0..40 for every Base58 prefix of every network (address, p2sh, wif, bip32…: any kind's
     #    prefix must not make an address out of a payload of the wrong length)
     for name in b58nets:
